@@ -80,3 +80,13 @@ Example C09_sample_roundtrip :
   | _ => False
   end.
 Proof. vm_compute. reflexivity. Qed.
+
+(* ==== generated additions (tools/mkprops.py, table APPEND in tools/propstable.py) ==== *)
+(* the well-formedness Dump needs, from a bound on the input length alone *)
+From BCL Require Import Proofs.ParserTotal Proofs.SizeBounds.
+
+Theorem C09_from_parse_input : forall name cs,
+  nlen (concat cs) < 2^56 -> nlen name < 2^64 ->
+  wf_parts (parts_of_prog (pr_prog (parse_chunks name cs))).
+Proof. first [exact SizeBounds.parse_wf_input | apply SizeBounds.parse_wf_input]. Qed.
+Print Assumptions C09_from_parse_input.
